@@ -1,7 +1,8 @@
 (** C15 — every compression codec is lossless: the property theorems (statements only;
     proofs are in Codec/Proofs.v).  Pinned by props/C15.statements. *)
-From GV Require Export Codec.Model.
-From GV Require Import Codec.Proofs.
+From GV Require Export Codec.Model Codec.Model2.
+From GV Require Import Codec.Proofs Codec.Proofs2.
+From Coq Require Export Permutation.
 Open Scope Z_scope.
 
 Theorem zigzag_roundtrip : forall v, in_i64 v -> zigzag_decode_bits (zigzag_encode_bits v) = v.
@@ -73,6 +74,48 @@ Theorem srle_roundtrip : forall xs, srle_decode (srle_encode xs) = xs.
 Proof. exact srle_rt_l. Qed.
 Print Assumptions srle_roundtrip.
 
+Theorem bitvec_get_agrees : forall bs i, 0 <= i -> bv_get (bv_from_bools bs) i = nth_error bs (Z.to_nat i).
+Proof. exact bv_get_from_bools_l. Qed.
+Print Assumptions bitvec_get_agrees.
+
+Theorem bitvec_roundtrip : forall bs, bv_to_bools (bv_from_bools bs) = bs.
+Proof. exact bv_to_bools_from_bools_l. Qed.
+Print Assumptions bitvec_roundtrip.
+
+Theorem dict_roundtrip : forall vs i, 0 <= i ->
+  dc_get (dict_encode vs) i = match nth_error vs (Z.to_nat i) with Some (Some s) => Some s | _ => None end.
+Proof. exact dict_roundtrip_l. Qed.
+Print Assumptions dict_roundtrip.
+
+Theorem bitpack_bytes_roundtrip : forall xs, Forall in_u64 xs -> Z.of_nat (length xs) < 2 ^ 32 ->
+  bp_from_bytes (bp_to_bytes (pack xs)) = Ok (Some (pack xs)).
+Proof.
+  intros xs H1 H2. rewrite <- (app_nil_r (bp_to_bytes (pack xs))).
+  apply bp_bytes_roundtrip_l; [apply pack_wf; assumption|reflexivity].
+Qed.
+Print Assumptions bitpack_bytes_roundtrip.
+
+Theorem codec_roundtrip : forall c xs, Forall in_u64 xs -> Z.of_nat (length xs) < 2 ^ 32 ->
+  (match c with CDbp _ => sortedb xs = true | _ => True end) ->
+  decompress_as c (compress_as c xs) = Ok (Some xs).
+Proof. exact codec_roundtrip_l. Qed.
+Print Assumptions codec_roundtrip.
+
+Theorem auto_codec_roundtrip : forall xs, Forall in_u64 xs -> Z.of_nat (length xs) < 2 ^ 32 ->
+  decompress_as (fst (compress_integers xs)) (snd (compress_integers xs)) = Ok (Some xs).
+Proof. exact auto_codec_roundtrip_l. Qed.
+Print Assumptions auto_codec_roundtrip.
+
+Theorem adj_chunk_roundtrip : forall es, Forall (fun e => in_u64 (fst e) /\ in_u64 (snd e)) es ->
+  chunk_iter (chunk_compress es) = sort_by_dst es /\ Permutation (chunk_iter (chunk_compress es)) es.
+Proof. exact chunk_roundtrip_l. Qed.
+Print Assumptions adj_chunk_roundtrip.
+
+Theorem column_compress_transparent : forall ms id,
+  col_get (fold_left col_apply ms col_empty) id = assoc_get id (fold_left ref_apply ms []).
+Proof. exact column_transparent_l. Qed.
+Print Assumptions column_compress_transparent.
+
 (** non-vacuity: the hypotheses are met by non-trivial inputs (extremes included) *)
 Example nv_u64 : sortedb [0; 5; 5; two64 - 1] = true /\ Forall in_u64 [0; 5; 5; two64 - 1].
 Proof. split; [reflexivity|]. repeat constructor; unfold in_u64, two64; lia. Qed.
@@ -83,4 +126,10 @@ Proof. split; [repeat constructor; lia|lia]. Qed.
 Example nv_roundtrip_runs :
   dbp_decode (dbp_encode [0]) = [0] /\ delta_decode_signed (delta_encode_signed [- two63; two63 - 1]) = [- two63; two63 - 1]
   /\ unpack (pack [1; two64 - 1; 0]) = [1; two64 - 1; 0].
+Proof. vm_compute. repeat split. Qed.
+Example nv_column : col_get (fold_left col_apply [MSet 1 (PInt 5); MSet 2 (PInt 6); MCompress (Some KInt); MSet 1 (PInt 7); MRemove 2] col_empty) 1 = Some (PInt 7)
+  /\ col_comp (fold_left col_apply [MSet 1 (PInt 5); MSet 2 (PInt 6); MCompress (Some KInt)] col_empty) <> None.
+Proof. vm_compute. split; [reflexivity|discriminate]. Qed.
+Example nv_select : select_for_integers [1;2;3;4;5;6;7;8;9] = CDbp 1 /\ select_for_integers [5;5;5;5;5;5;5;5;5] = CRle
+  /\ select_for_integers [3;1;3;1;2;0;3;1;2] = CBp 2.
 Proof. vm_compute. repeat split. Qed.
